@@ -518,7 +518,8 @@ static bool runActive(Rng& r, const ActiveCase& c, const std::string& tag, const
   for (auto& m : w.lis.msgs) if (m.dir == md_answer && c.answers.empty()) report("c15-answer-report-without-registration", telStr(m.master, m.slave));
   if (g_verbose) {
     printf("BUS %s\n", logHex(w.bus.log).c_str());
-    for (auto& ri : reqs) printf("REQ %s result=%d notifications=%d exchanges=%d valid=%d slave=%s\n", vf::hex(ri.master).c_str(), ri.result, ri.notifications, ri.exchanges, ri.validSeen, vf::hex(ri.slave).c_str());
+    for (auto& ri : reqs) printf("REQ %s result=%d notifications=%d exchanges=%d valid=%d slave=%s submitted=%lld done=%lld\n", vf::hex(ri.master).c_str(), ri.result, ri.notifications, ri.exchanges, ri.validSeen, vf::hex(ri.slave).c_str(),
+                                 (long long)(ri.submitted / 1000000 % 10000000), (long long)(ri.done / 1000000 % 10000000));
     printf("TRACE %s\n", w.tdev->trace.c_str());
   }
   if (out) {
@@ -570,7 +571,15 @@ static void modeActive(long ncases, const std::string& which) {
     int nreq = r.range(1, 3);
     int64_t at = (int64_t)r.range(150, 400) * MS;
     for (int k = 0; k < nreq; k++) {
-      c.requests.push_back({at, randMaster(r, c.cfg.own)});
+      // (the requests of a scenario carry different bytes: which of two identical ones an exchange on the wire belongs to cannot be told)
+      std::vector<uint8_t> rm = randMaster(r, c.cfg.own);
+      for (int tries = 0; tries < 20; tries++) {
+        bool dup = false;
+        for (auto& o : c.requests) if (o.second == rm) dup = true;
+        if (!dup) break;
+        rm = randMaster(r, c.cfg.own);
+      }
+      c.requests.push_back({at, rm});
       at += (int64_t)r.range(0, 300) * MS + (r.chance(1, 3) ? (int64_t)r.range(0, 4000) * 1000 : 0);
       for (unsigned e = 0; e <= c.cfg.busLostRetries + 1; e++) c.peers.push_back(randPeer(r, which == "c02" ? r.chance(1, 2) : r.chance(1, 5)));
     }
